@@ -570,6 +570,10 @@ func (hl MapLiteral) PrettyPrint(out *PrintState) *PrintState {
 	if out.Compact {
 		sep = ","
 	}
+	// key:value is parsed as one ':' expression, so keys and values binding as loose as ':' or looser
+	// (a || b, a = b, a : b) need their parentheses.
+	oldExpressionPrecedence := out.ExpressionPrecedence
+	out.ExpressionPrecedence = LAMBDA
 	for i, key := range hl.Order {
 		if i > 0 {
 			out.Print(sep)
@@ -578,6 +582,7 @@ func (hl MapLiteral) PrettyPrint(out *PrintState) *PrintState {
 		out.Print(":")
 		hl.Pairs[key].PrettyPrint(out)
 	}
+	out.ExpressionPrecedence = oldExpressionPrecedence
 	out.Print("}")
 	return out
 }
